@@ -13,16 +13,190 @@ PROPS = {
         "rule": "a case = 0..5 generated machines + fractions + RNG script + clock + a history of 1..120 "
                 "trigger_events calls; non-trivial when at least one action was returned and at least one internal "
                 "event (LimitReached, CounterZero, Signal) was delivered; distinct by hash of machines and history",
-        "floors": {
-            "quick": {"calls": 100000, "deliver_limit_reached": 1000, "deliver_counter_zero": 200,
-                      "deliver_signal": 1000, "calls_backwards_time": 1000, "calls_with_unknown_id": 1000,
-                      "deliveries_with_saturated_counter": 100, "calls_with_1000+_events": 20},
-            "thorough": {"calls": 5000000, "deliver_limit_reached": 50000, "deliver_counter_zero": 10000,
-                         "deliver_signal": 50000},
-        },
+        "floors": None,
         "assumptions": COMMON_ASSUMPTIONS + [
             "std::time::Instant offsets stay below 2^45 microseconds (beyond that Duration arithmetic in caller code overflows)",
             "Binomial distributions are excluded when the RNG carries a scripted extreme prefix (see C13 known finding)",
         ],
     },
+    "C05": {
+        "workers": ["c05x", "c05"],
+        "rule": "worker c05x: a case = one family of 1-3 small dyadic machines explored depth-first over all call "
+                "histories up to the depth bound and over every outcome of every draw; non-trivial and counted when "
+                "its whole tree was closed within the node budget. worker c05: a case = 1-5 generated machines + a "
+                "history of 5-200 calls (batches 0-8) run on two instances, a clone and the reference semantics; "
+                "non-trivial when actions were returned and LimitReached/CounterZero/Signal occurred; distinct by "
+                "hash of machines and history",
+        "floors": {
+            "quick": {"families_closed": 100, "transitions": 1000000, "calls": 1000000,
+                      "rule:limit_reached": 20000, "rule:counter_zero": 2000, "rule:signal_rounds": 10000,
+                      "rule:signal_second_round": 500, "rule:counter_zero_took_precedence": 300,
+                      "rule:denied_padding_budget": 5000, "rule:denied_blocking_budget": 5000,
+                      "rule:to_end": 2000, "rule:counter_saturated_hi": 2000, "rule:time_backwards": 50000},
+            "thorough": {"families_closed": 500, "transitions": 100000000, "calls": 50000000,
+                         "rule:limit_reached": 1000000, "rule:counter_zero": 100000, "rule:signal_rounds": 500000},
+        },
+        "exhaustive_key": None,
+        "assumptions": COMMON_ASSUMPTIONS + [
+            "reference semantics = DESIGN.md section 3 (R1-R14), written from the property statements and the crate documentation",
+            "random choices are taken from the step log and only checked against the declared support; their "
+            "distribution is C06's subject",
+            "exhaustive exploration represents each dyadic outcome class of a draw by its left end point k/4",
+        ],
+    },
+    "C02": {
+        "workers": ["c02"],
+        "rule": 'a case = 1-4 generated machines (padding-heavy, budgets from {0,1,2,5,1000}, fractions from {0,1/4,1/3,1/2,1,..}) + framework fraction + a history of 10-250 single-event calls biased to NormalSent/PaddingSent (boundary walks); 1 in 64 cases is a directed two-machine shape; non-trivial when at least one SendPadding was returned with the packet budget exhausted (so a fraction clause decided); distinct by hash of machines and history',
+        "floors": None,
+        "assumptions": COMMON_ASSUMPTIONS + ["the predicate is evaluated with exact rational arithmetic; the framework's f64 division is monotone, so it can only be stricter than the exact predicate", 'multi-event batches are covered through C05'],
+    },
+    "C03": {
+        "workers": ["c03"],
+        "rule": 'a case = 1-4 generated machines (blocking-heavy, budgets from {0,1,1e3,1e6,max}, fractions) + framework fraction + 10-250 single-event calls with BlockingBegin(any id)/BlockingEnd placed arbitrarily and virtual time steps {0,1,small,large,backwards}; non-trivial when a BlockOutgoing was returned with the time budget exhausted; distinct by hash of machines and history',
+        "floors": None,
+        "assumptions": COMMON_ASSUMPTIONS + ['virtual clock in integer microseconds, kept below 2^52 so that u64->f64 conversions in the framework are exact and its division can only be stricter than the exact predicate', 'std::time::Instant is exercised by C01 and C20, not here (as_secs_f64 rounding makes the share inexact at the last ulp)'],
+    },
+    "C04": {
+        "workers": ["c04"],
+        "rule": 'a case = 0-5 generated machines (heavy-tailed/unbounded timeout and duration distributions, END reachable) + 5-200 calls with batches of 0-16 events; non-trivial when actions were returned and either a machine had ended before some call or a value was clamped to one day; distinct by hash of machines and history',
+        "floors": None,
+        "assumptions": COMMON_ASSUMPTIONS + ['END is read from the hook snapshot taken before each call'],
+    },
+    "C07": {
+        "workers": ["c07"],
+        "rule": 'a case = 1-4 generated machines with limited actions of the three limitable kinds (constant and sampled limits) + 10-200 calls (batches 0-8); 1 in 32 is a directed limit-0/1/2 machine; non-trivial when a stay reached remaining limit zero; distinct by hash of machines and history',
+        "floors": None,
+        "assumptions": COMMON_ASSUMPTIONS + ['monitor tracks only (state, remaining limit) per machine from the step log; the decrement itself is verified at the next delivery or snapshot'],
+    },
+    "C08": {
+        "workers": ["c08"],
+        "rule": 'a case = 1-5 generated machines with counter specs on most states (3 operations x unit/sampled/copy, operands around 0,1,2 and u64::MAX; identical twins in 1 of 6 cases) without budgets + 10-200 calls (batches 0-8); non-trivial when a counter crossed from non-zero to zero with an unspent permit; distinct by hash of machines and history',
+        "floors": None,
+        "assumptions": COMMON_ASSUMPTIONS + ["no budgets or fractions in this workload, so an entered state's action is allowed iff it is a Cancel or the stay's limit is positive (needed for the precedence clause)"],
+    },
+    "C09": {
+        "workers": ["c09"],
+        "rule": 'a case = 1-5 generated machines with boosted SIGNAL targets (on external events, LimitReached, CounterZero, Signal) + 10-150 calls (batches 0-8); non-trivial when at least one call contained signalling; distinct by hash of machines and history',
+        "floors": None,
+        "assumptions": COMMON_ASSUMPTIONS + ['a signal target carried over from the previous call (the lone signaller signalled again in the second round) counts as signalled by its source in the next call'],
+    },
+    "C10": {
+        "workers": ["c10"],
+        "rule": 'a case = 2-5 deterministic machines (probability-1 transitions, constant distributions, no SIGNAL targets; twins in 1 of 3 cases), framework fractions 0, + 10-150 calls (batches 0-8), every machine compared with a solo run on the projected history after every call; non-trivial when in some call two or more machines scheduled/withdrew/handled an internal event; distinct by hash of machines and history',
+        "floors": None,
+        "assumptions": COMMON_ASSUMPTIONS + ['the solo run maps events addressed to neighbours to an unknown id; blocking state and time are shared by construction'],
+    },
 }
+
+# Coverage floors (quick): a quarter of what the workload reaches on the unchanged tree; a run that
+# observes less is inconclusive. Thorough floors are ten times the quick ones.
+QUICK_FLOORS = {
+    "C01": {
+        "actions_returned": 600000,
+        "calls": 3000000,
+        "calls_backwards_time": 300000,
+        "calls_with_1000+_events": 9000,
+        "calls_with_unknown_id": 500000,
+        "calls_zero_step": 700000,
+        "cases_scripted_rng_prefix": 20000,
+        "cases_std_instant": 10000,
+        "cases_virtual_clock": 30000,
+        "deliver_counter_zero": 30000,
+        "deliver_limit_reached": 1000000,
+        "deliver_signal": 200000,
+        "deliveries": 100000000,
+        "deliveries_with_limit_zero": 20000000,
+        "deliveries_with_saturated_counter": 5000000
+    },
+    "C02": {
+        "calls": 9000000,
+        "calls_exactly_on_a_fraction_limit": 500000,
+        "directed_cases": 1000,
+        "padding_actions_decided_by_framework_fraction": 600000,
+        "padding_actions_decided_by_machine_fraction": 900000,
+        "padding_actions_returned": 1000000,
+        "padding_actions_with_budget_exhausted": 1000000,
+        "padding_actions_within_packet_budget": 600000
+    },
+    "C03": {
+        "blocking_actions_by_replace_while_active": 1000000,
+        "blocking_actions_decided_by_a_fraction": 400000,
+        "blocking_actions_returned": 2000000,
+        "blocking_actions_with_budget_exhausted": 400000,
+        "blocking_actions_within_time_budget": 500000,
+        "blocking_begin_while_active": 1000000,
+        "blocking_end_unpaired": 1000000,
+        "calls": 9000000,
+        "calls_before_start_time": 300000,
+        "calls_exactly_on_a_blocking_fraction": 10000,
+        "calls_with_time_regression": 1000000,
+        "calls_with_time_regression_while_blocking": 600000,
+        "calls_with_zero_elapsed_time": 2000000
+    },
+    "C04": {
+        "actions_blocking": 300000,
+        "actions_cancel": 400000,
+        "actions_clamped_to_one_day": 400000,
+        "actions_padding": 200000,
+        "actions_returned": 1000000,
+        "actions_timer": 400000,
+        "actions_with_asymmetric_flags": 500000,
+        "calls": 5000000,
+        "calls_returning_2+_actions": 200000,
+        "calls_with_a_machine_already_ended": 2000000
+    },
+    "C07": {
+        "actions_returned_with_limit_exhausted_after_call": 100,
+        "calls": 7000000,
+        "completions_of_other_machines_observed": 2000000,
+        "entries_from_another_state": 2000000,
+        "entries_with_sampled_limit_zero": 300000,
+        "own_completions_at_limit_zero": 800000,
+        "own_completions_decrementing": 2000000,
+        "own_completions_with_state_change": 1000000,
+        "self_transitions": 3000000,
+        "stays_that_reached_limit_zero": 400000
+    },
+    "C08": {
+        "both_counters_zeroed_in_one_update": 10000,
+        "calls": 7000000,
+        "calls_in_which_2+_machines_crossed_zero": 20000,
+        "chains_with_counter_zero_and_precedence_decided": 100000,
+        "copy_updates": 2000000,
+        "copy_updates_with_differing_registers": 1000000,
+        "counter_updates": 8000000,
+        "counter_zero_action_took_precedence": 100000,
+        "entered_state_action_scheduled_after_counter_zero_scheduled_nothing": 30000,
+        "saturations_at_max": 200000,
+        "saturations_at_zero": 2000000,
+        "scheduled_in_a_chain_with_counter_zero": 100000,
+        "updates_resulting_in_u64_max": 300000,
+        "zero_crossings_after_permit_spent": 10000,
+        "zero_crossings_with_permit": 500000
+    },
+    "C09": {
+        "calls": 6000000,
+        "calls_with_2+_signallers": 200000,
+        "calls_with_a_response_in_the_round": 300000,
+        "calls_with_carried_over_signal": 80000,
+        "calls_with_lone_signaller_signalling_2+_times": 80000,
+        "calls_with_one_signaller": 1000000,
+        "signalling_calls": 1000000,
+        "signalling_calls_with_ended_machines": 400000,
+        "signalling_calls_with_machine_ended_before_call": 400000,
+        "signals_on_counter_zero": 10000,
+        "signals_on_external_event": 1000000,
+        "signals_on_limit_reached": 40000,
+        "signals_on_signal": 600000
+    },
+    "C10": {
+        "calls": 6000000,
+        "combined_calls_with_2+_machines_active": 900000,
+        "solo_comparisons": 20000000
+    }
+}
+
+for _pid, _spec in PROPS.items():
+    if _spec.get("floors") is None:
+        q = QUICK_FLOORS.get(_pid, {})
+        _spec["floors"] = {"quick": q, "thorough": {k: v * 10 for k, v in q.items()}}
